@@ -27,18 +27,20 @@ n = len(metas)
 missed = [m["id"] for m in metas if not m["reported_by"]]
 text = """## 11. Seeded changes and which checks catch them
 
-%d changes were produced by 100 fresh sub-agents in five rounds of 20 (one agent per property and round). Round 1: three
+%d changes were produced by 120 fresh sub-agents in six rounds of 20 (one agent per property and round). Round 1: three
 changes each, free choice. Round 2: two each, defects in the logic *around* the arithmetic - guards, dispatch, special
 cases, canonical form, configuration - rather than slips inside digit loops. Round 3: two each, changes that look like
 maintenance work - fast paths, refactors, rerouted API forms, type or cfg changes, std helpers with different edge
 behaviour. Round 4: two each, contract drift - one side of two things that are supposed to agree (sibling API forms, trait
 laws, wrapper vs implementation, documented return and panic conventions). Round 5: two each, optimisations gone wrong -
 fast paths, early exits, skipped work, in-place buffer reuse, cheaper special-case routines, normalisation or guards dropped
-because "the caller already did" (the style the earlier misses had in common). Each agent got only the property text and a
+because "the caller already did" (the style the earlier misses had in common). Round 6: two each, free choice again, run
+against the final machinery as a fresh estimate: 27 of its 40 were reported by the own property's check before anything was
+changed for them, 33 after the corrections listed at the end of this section. Each agent got only the property text and a
 private worktree; every change compiles, passes the 165 baseline tests and comes with a demonstration that fails with the
 change and passes without. Each was re-confirmed here in a scratch copy (`nbsa/confirm_seed.sh`: demo on the clean tree,
 patch, demo again - also `--release` when the demo asks for it - then the whole suite) before being kept under
-`/verif/seeded/<Cxx-k>/` (k = 1..3 round 1, 4..5 round 2, 6..7 round 3, 8..9 round 4, 10..11 round 5) with `patch.diff`, `demo.rs`,
+`/verif/seeded/<Cxx-k>/` (k = 1..3 round 1, 4..5 round 2, 6..7 round 3, 8..9 round 4, 10..11 round 5, 12..13 round 6) with `patch.diff`, `demo.rs`,
 `notes.md`, `meta.json`. `nbsa/seedrun.sh <patch>` applies a change to a scratch copy and runs every claimed check;
 `meta.json.reported_by` is its output on the final machinery. Independent agents sometimes hit on the same edit (the
 `powsign` simplification, `BigInt::set_bit` without `normalize()`, `RandomBits` bypassing `gen_bigint`, `monty_modpow`'s
@@ -50,15 +52,15 @@ padding, by-value `div_rem`'s guard order each occur two or three times); they a
 
 **%d of %d** are reported by a check of the property they were written for, %d more only by a sibling property's check, %d by
 none (%s). The misses are digit-, bit- or float-level arithmetic inside leaf routines (section 8): a lost carry in
-`montgomery`, a carry into the longer operand's tail, the Knuth D refinement, Toom-3 interpolation and operand splitting, a
-mask in `set_negative_bit` and result lengths in the two's-complement helpers, chunk sizing in `to_radix_digits_le`, a
-power-of-two shortcut in `gcd` / `nth_root`, a debug-only overflow in a signed remainder; from round 5: a row window in
-`mac3`'s schoolbook leaf, a truncate-and-mask reduction for power-of-two moduli, a branch-free digit classifier that accepts
-two more characters, a skipped pass in `bitand_neg_neg`, a vacuous same-width round-trip test in `TryFrom`, a new `nth`
-override of `U32Digits`, a u128 addition split into two steps, a `bits() >> 5` length in Serialize (the serde length rule
-evaluates the announced length of the shape it knows; this one is reported as undecided). Five more (C07-6, C10-6, C07-11,
-C13-2, C13-11) are bodies the abstract interpreter cannot decide; they were reported while "undecided" made a check fail and
-are notes since section 12.4.
+`montgomery`, a carry into the longer operand's tail (three times), the Knuth D refinement, Toom-3 interpolation and operand
+splitting, `sub_sign`'s trimming, result lengths in the two's-complement helpers and early exits in `bitand_neg_neg` /
+`bitand_neg_pos`, chunk sizing in `to_radix_digits_le`, a power-of-two shortcut in `gcd` / `nth_root`, a debug-only overflow
+in a signed remainder, a row window in `mac3`'s schoolbook leaf, a truncate-and-mask reduction for power-of-two moduli, a
+branch-free digit classifier that accepts two more characters, a new `nth` override of `U32Digits`, u128 additions split into
+steps or routed through the debug-asserting `add2`, a `bits() >> 5` length in Serialize (reported as undecided), the
+negative-power-of-two test of `to_signed_bytes_*` reading one digit, `unwrap_or(MAX)` in a scalar remainder. Five more
+(C07-6, C10-6, C07-11, C13-2, C13-11) are bodies the abstract interpreter cannot decide; they were reported while "undecided"
+made a check fail and are notes since section 12.4.
 
 Checks added or generalised because a seed was missed at first: R3c panic-site table and checked negations (C14-2, C14-3,
 C01-5), R5 constructors (C09-3), BigUint^BigUint decision + oracle-side case split (C10-3, C12-2), R5 range terms (C18-1),
@@ -75,7 +77,11 @@ round: the float-guess constants - bit-length guards and the `bits - K` of the s
 (C11-3, C16-1, C16-4, C16-8), the read set of the to_f64 digit loop (C08-1, C08-6), the non-zero typestate at gcd's common
 shift (C13-6, C13-10), checked arithmetic on a digit element (C10-1, C16-11), R1 under C10 and C18 (C10-10, C18-10), R11
 under C14 (C14-11), the panic-site table under the arithmetic families (C02-11), representation findings of the abstract
-interpreter kept under C04 (C04-11), trailing-zero counts compared only with 0 in the count-narrowing rule (C12-11).
+interpreter kept under C04 (C04-11), trailing-zero counts compared only with 0 in the count-narrowing rule (C12-11); from
+round 6: unsigned-to-signed casts need an ordering test (C08-11), a value computed from a rejected candidate is not a
+candidate (C18-12), near-balanced shapes in the cost recurrence (C20-13), the exact range of locally computed shift amounts
+(C16-13, C07-2), "zero is the empty sequence" as a path rule (C17-12), the constructors rule under C06 (C06-12), a
+trailing-zero count taken from one digit in gcd (C13-12).
 """ % (n, "\n".join(rows), own, n, sib, len(missed), ", ".join(missed))
 s = open(V + "/DESIGN.md").read()
 i0 = s.index("## 11. Seeded changes")
